@@ -36,7 +36,9 @@ impl Deserialize for BootstrapWitnesses {
                 cbor_event::Len::Indefinite => true,
             } {
                 if raw.cbor_type()? == cbor_event::Type::Special {
-                    assert_eq!(raw.special()?, cbor_event::Special::Break);
+                    if raw.special()? != cbor_event::Special::Break {
+                        return Err(crate::DeserializeFailure::EndingBreakMissing.into());
+                    }
                     break;
                 }
                 arr.push(BootstrapWitness::deserialize(raw)?);
